@@ -4,7 +4,7 @@
   2. copy propagation of pure local aliases - `dt = r.raw_value.as_integer;
      if dt == 254` is read as `if r.raw_value.as_integer == 254`.
 
-An alias is a local name with exactly one assignment `a = <pure expr>` (names,
+An alias is a local name assigned `a = <pure expr>` (names,
 attribute chains, constants, arithmetic / comparison / subscripts of such;
 no call, await or yield) that is valid at each use: the assignment is the
 only definition reaching the use and every name read by the right-hand side
@@ -99,26 +99,30 @@ def _one_round(fn, only_params=False):
                 if isinstance(x, ast.Name) and isinstance(
                         x.ctx, (ast.Store, ast.Del)):
                     stores.setdefault(x.id, []).append(n)
-    cands = {}
+    cands = []
     for name, ns in stores.items():
-        if len(ns) != 1 or ns[0] is None or name in params:
+        if any(x is None for x in ns) or name in params:
             continue
-        n = ns[0]
-        a = n.ast
-        if only_params and not getattr(a, "_inline_param", False):
-            continue
-        single_use_param = getattr(a, "_inline_param", False) and \
-            _count_loads(fn, name) == 1
-        if n.kind == "stmt" and isinstance(a, ast.Assign) and len(
-                a.targets) == 1 and isinstance(a.targets[0], ast.Name) and \
-                _pure(a.value, allow_call=single_use_param) and \
-                name not in _names(a.value):
-            if isinstance(a.value, ast.Constant) and not getattr(
-                    a, "_inline_param", False):
-                continue          # named constants keep their name
-            cands[name] = n
+        for n in ns:
+            a = n.ast
+            if only_params and not getattr(a, "_inline_param", False):
+                continue
+            single_use_param = getattr(a, "_inline_param", False) and \
+                _count_loads(fn, name) == 1
+            if n.kind == "stmt" and isinstance(a, ast.Assign) and len(
+                    a.targets) == 1 and isinstance(
+                        a.targets[0], ast.Name) and \
+                    _pure(a.value, allow_call=single_use_param) and \
+                    name not in _names(a.value):
+                if isinstance(a.value, ast.Constant) and not getattr(
+                        a, "_inline_param", False):
+                    continue          # named constants keep their name
+                if len(ns) > 1 and isinstance(a.value, (
+                        ast.Constant, ast.Name)):
+                    continue          # a variable, not a name for a value
+                cands.append((name, n))
     repl = {}
-    for name, dn in cands.items():
+    for name, dn in cands:
         rhs_names = _names(dn.ast.value)
         at_def = {x: defs_reaching(rd, dn, x) for x in rhs_names}
         for u in cfg.reachable:
